@@ -209,9 +209,11 @@ def gen_bind() -> str:
 
 def gen_layout() -> str:
     """TRANSLATED (harness/pytolean.py), not extracted: the character-level layout functions of the parser as Lean definitions (C07).
-    A source outside the translator's subset raises pytolean.Unsupported, reported as a broken obligation by `regenerate`."""
+    A function outside the translator's subset (pytolean.Unsupported) is left out of the text and reported as a broken obligation by `regenerate`."""
     import importlib
     import pytolean
+    if pytolean.selftest(quiet=True):
+        raise RuntimeError("harness/pytolean.py fails its self-test (run it as a script)")
     pa = importlib.import_module("Reduino.transpile.parser")
     return pytolean.module_text("Reduino.Gen.Layout", [pa._indent_of, pa._strip_inline_comment], imports=["Reduino.Lang.Layout"])
 
@@ -240,8 +242,12 @@ def regenerate(ctx=None, only=None):
     for name, fn in GENERATORS.items():
         if only and name not in only:
             continue
+        errors = []
         try:
-            text = "-- GENERATED by harness/extract.py from /repo/src on every run. Do not edit.\n" + fn()
+            text = fn()
+            if isinstance(text, tuple):     # a translator: the text without the functions it could not translate, and why
+                text, errors = text
+            text = "-- GENERATED by harness/extract.py from /repo/src on every run. Do not edit.\n" + text
         except Exception as e:  # the source no longer has the shape the extractor reads
             if ctx is not None:
                 ctx.broken.append(f"extract {name}: {type(e).__name__}: {e}")
@@ -251,6 +257,10 @@ def regenerate(ctx=None, only=None):
         if not path.exists() or path.read_text() != text:
             path.write_text(text)
             changed.append(name)
+        for e in errors:                 # after writing: the obligations about the missing definitions stop building, too
+            if ctx is None:
+                raise e
+            ctx.broken.append(f"translate {name}: {e}")
     return changed
 
 
